@@ -680,3 +680,161 @@ package geom
 //@   floats real
 //@   requires wf3(g) && g.stride >= 2
 //@   ensures true
+
+// ---------------------------------------------------------------------------
+// C08: Bounds
+
+//@ func NewBounds
+//@   floats real
+//@   requires strideOf(layout) >= 0
+//@   ensures fresh(res) && Binv(res) && Brange(res) && res.layout == layout && fresh(res.min) && fresh(res.max)
+//@   ensures forall i int :: 0 <= i && i < strideOf(layout) ==> res.min[i] == PINF && res.max[i] == NINF
+//@   loop 1:
+//@     invariant len(minValue) == stride && len(maxValue) == stride && fresh(minValue) && fresh(maxValue) && base(minValue) != base(maxValue)
+//@     invariant forall i int :: 0 <= i && i < idx ==> minValue[i] == PINF && maxValue[i] == NINF
+
+//@ func Bounds.IsEmpty
+//@   floats real
+//@   requires Binv(b) && strideOf(b.layout) >= 0
+//@   ensures res <==> (b.layout == 0 || exists i int :: 0 <= i && i < strideOf(b.layout) && b.max[i] < b.min[i])
+//@   loop 1:
+//@     invariant 0 <= i && stride == strideOf(b.layout)
+//@     invariant forall k int :: 0 <= k && k < i ==> !(b.max[k] < b.min[k])
+
+//@ func Bounds.Overlaps
+//@   floats real
+//@   requires b2 != nil && 0 <= strideOf(layout) && strideOf(layout) <= len(b.min) && strideOf(layout) <= len(b.max) && strideOf(layout) <= len(b2.min) && strideOf(layout) <= len(b2.max)
+//@   ensures res <==> forall i int :: 0 <= i && i < strideOf(layout) ==> b.min[i] <= b2.max[i] && b2.min[i] <= b.max[i]
+//@   loop 1:
+//@     invariant 0 <= i && stride == strideOf(layout)
+//@     invariant forall k int :: 0 <= k && k < i ==> b.min[k] <= b2.max[k] && b2.min[k] <= b.max[k]
+
+//@ func Bounds.OverlapsPoint
+//@   floats real
+//@   requires 0 <= strideOf(layout) && strideOf(layout) <= len(b.min) && strideOf(layout) <= len(b.max) && strideOf(layout) <= len(point)
+//@   ensures res <==> forall i int :: 0 <= i && i < strideOf(layout) ==> b.min[i] <= point[i] && point[i] <= b.max[i]
+//@   loop 1:
+//@     invariant 0 <= i && stride == strideOf(layout)
+//@     invariant forall k int :: 0 <= k && k < i ==> b.min[k] <= point[k] && point[k] <= b.max[k]
+
+//@ func Bounds.extendStride
+//@   floats real
+//@   requires Binv(b) && Brange(b) && strideOf(b.layout) >= 0
+//@   ensures b.layout == old(b.layout) && Brange(b)
+//@   ensures stride <= old(len(b.min)) ==> b.min == old(b.min) && b.max == old(b.max)
+//@   ensures len(b.min) == (stride > old(len(b.min)) ? stride : old(len(b.min))) && len(b.max) == len(b.min) && (base(b.min) != base(b.max) || (cap(b.min) == 0 && cap(b.max) == 0))
+//@   ensures forall j int :: 0 <= j && j < old(len(b.min)) ==> b.min[j] == old(b.min[j]) && b.max[j] == old(b.max[j])
+//@   ensures forall j int :: old(len(b.min)) <= j && j < len(b.min) ==> b.min[j] == PINF && b.max[j] == NINF
+//@   ensures fresh(b.min) || (base(b.min) == old(base(b.min)) && off(b.min) == old(off(b.min)) && cap(b.min) == old(cap(b.min)))
+//@   ensures fresh(b.max) || (base(b.max) == old(base(b.max)) && off(b.max) == old(off(b.max)) && cap(b.max) == old(cap(b.max)))
+//@   modifies *b, spare(b.min), spare(b.max)
+//@   loop 1:
+//@     invariant b.layout == old(b.layout) && s >= strideOf(b.layout) && len(b.min) == old(len(b.min)) + s - strideOf(b.layout) && len(b.max) == len(b.min)
+//@     invariant s == strideOf(b.layout) ==> b.min == old(b.min) && b.max == old(b.max)
+//@     invariant s <= stride || s == strideOf(b.layout)
+//@     invariant base(b.min) != base(b.max) || (cap(b.min) == 0 && cap(b.max) == 0)
+//@     invariant fresh(b.min) || (base(b.min) == old(base(b.min)) && off(b.min) == old(off(b.min)) && cap(b.min) == old(cap(b.min)))
+//@     invariant fresh(b.max) || (base(b.max) == old(base(b.max)) && off(b.max) == old(off(b.max)) && cap(b.max) == old(cap(b.max)))
+//@     invariant forall j int :: 0 <= j && j < old(len(b.min)) ==> b.min[j] == old(b.min[j]) && b.max[j] == old(b.max[j])
+//@     invariant forall j int :: old(len(b.min)) <= j && j < len(b.min) ==> b.min[j] == PINF && b.max[j] == NINF
+
+//@ func Bounds.extendFlatCoords
+//@   floats real
+//@   lemmas mulCancel, mulCancel2, mulNonneg
+//@   requires Binv(b) && 0 <= stride && stride <= strideOf(b.layout) && 0 <= offset && offset <= end && end <= len(flatCoords) && whole(end - offset, stride)
+//@   requires base(flatCoords) != base(b.min) && base(flatCoords) != base(b.max) && Brange(b) && finiteCells(flatCoords)
+//@   ensures Brange(b)
+//@   ensures res == b && b.layout == old(b.layout) && b.min == old(b.min) && b.max == old(b.max)
+//@   ensures stride > 0 ==> forall j int :: 0 <= j && j < stride ==> b.min[j] == fmin(old(b.min[j]), gmin(cells(flatCoords), off(flatCoords)+offset, stride, j, cnt(end - offset, stride))) && b.max[j] == fmax(old(b.max[j]), gmax(cells(flatCoords), off(flatCoords)+offset, stride, j, cnt(end - offset, stride)))
+//@   ensures forall j int :: stride <= j && j < len(b.min) ==> b.min[j] == old(b.min[j]) && b.max[j] == old(b.max[j])
+//@   modifies *b, b.min[0:cap(b.min)], b.max[0:cap(b.max)]
+//@   loop 1:
+//@     ghost m int = 0 step m + 1
+//@     invariant m >= 0 && i == offset + mul(m, stride) && (stride > 0 || end == offset) && (i <= end)
+//@     invariant b.layout == old(b.layout) && b.min == old(b.min) && b.max == old(b.max)
+//@     invariant forall j int :: 0 <= j && j < stride ==> b.min[j] == fmin(old(b.min[j]), gmin(cells(flatCoords), off(flatCoords)+offset, stride, j, m)) && b.max[j] == fmax(old(b.max[j]), gmax(cells(flatCoords), off(flatCoords)+offset, stride, j, m))
+//@     invariant forall j int :: stride <= j && j < len(b.min) ==> b.min[j] == old(b.min[j]) && b.max[j] == old(b.max[j])
+//@   loop 2:
+//@     invariant b.layout == old(b.layout) && b.min == old(b.min) && b.max == old(b.max)
+//@     invariant forall j int :: 0 <= j && j < idx ==> b.min[j] == fmin(old(b.min[j]), gmin(cells(flatCoords), off(flatCoords)+offset, stride, j, m+1)) && b.max[j] == fmax(old(b.max[j]), gmax(cells(flatCoords), off(flatCoords)+offset, stride, j, m+1))
+//@     invariant forall j int :: idx <= j && j < stride ==> b.min[j] == fmin(old(b.min[j]), gmin(cells(flatCoords), off(flatCoords)+offset, stride, j, m)) && b.max[j] == fmax(old(b.max[j]), gmax(cells(flatCoords), off(flatCoords)+offset, stride, j, m))
+//@     invariant forall j int :: stride <= j && j < len(b.min) ==> b.min[j] == old(b.min[j]) && b.max[j] == old(b.max[j])
+
+//@ func Bounds.extendLayout
+//@   floats real
+//@   requires Binv(b) && Brange(b) && okLayout(b.layout) && okLayout(layout)
+//@   ensures Binv(b) && Brange(b) && b.layout == joinLayout(old(b.layout), layout)
+//@   ensures loD(b, 0) == old(loD(b, 0)) && hiD(b, 0) == old(hiD(b, 0))
+//@   ensures loD(b, 1) == old(loD(b, 1)) && hiD(b, 1) == old(hiD(b, 1))
+//@   ensures loD(b, 2) == old(loD(b, 2)) && hiD(b, 2) == old(hiD(b, 2))
+//@   ensures loD(b, 3) == old(loD(b, 3)) && hiD(b, 3) == old(hiD(b, 3))
+//@   ensures fresh(b.min) || (base(b.min) == old(base(b.min)) && off(b.min) == old(off(b.min)) && cap(b.min) == old(cap(b.min)))
+//@   ensures fresh(b.max) || (base(b.max) == old(base(b.max)) && off(b.max) == old(off(b.max)) && cap(b.max) == old(cap(b.max)))
+//@   modifies *b, b.min[0:cap(b.min)], b.max[0:cap(b.max)]
+
+//@ func Bounds.extendXYZMFlatCoordsWithXYM
+//@   floats real
+//@   lemmas mulCancel, mulCancel2, mulNonneg
+//@   requires Binv(b) && Brange(b) && b.layout == 4 && 0 <= offset && offset <= end && end <= len(flatCoords) && whole(end - offset, 3)
+//@   requires base(flatCoords) != base(b.min) && base(flatCoords) != base(b.max) && finiteCells(flatCoords)
+//@   ensures res == b && b.layout == old(b.layout) && b.min == old(b.min) && b.max == old(b.max) && Brange(b)
+//@   ensures b.min[0] == fmin(old(b.min[0]), gmin(cells(flatCoords), off(flatCoords)+offset, 3, 0, cnt(end - offset, 3))) && b.max[0] == fmax(old(b.max[0]), gmax(cells(flatCoords), off(flatCoords)+offset, 3, 0, cnt(end - offset, 3)))
+//@   ensures b.min[1] == fmin(old(b.min[1]), gmin(cells(flatCoords), off(flatCoords)+offset, 3, 1, cnt(end - offset, 3))) && b.max[1] == fmax(old(b.max[1]), gmax(cells(flatCoords), off(flatCoords)+offset, 3, 1, cnt(end - offset, 3)))
+//@   ensures b.min[3] == fmin(old(b.min[3]), gmin(cells(flatCoords), off(flatCoords)+offset, 3, 2, cnt(end - offset, 3))) && b.max[3] == fmax(old(b.max[3]), gmax(cells(flatCoords), off(flatCoords)+offset, 3, 2, cnt(end - offset, 3)))
+//@   ensures b.min[2] == old(b.min[2]) && b.max[2] == old(b.max[2])
+//@   modifies *b, b.min, b.max
+//@   loop 1:
+//@     ghost m int = 0 step m + 1
+//@     invariant m >= 0 && i == offset + mul(m, 3) && i <= end
+//@     invariant b.layout == old(b.layout) && b.min == old(b.min) && b.max == old(b.max)
+//@     invariant b.min[0] == fmin(old(b.min[0]), gmin(cells(flatCoords), off(flatCoords)+offset, 3, 0, m)) && b.max[0] == fmax(old(b.max[0]), gmax(cells(flatCoords), off(flatCoords)+offset, 3, 0, m))
+//@     invariant b.min[1] == fmin(old(b.min[1]), gmin(cells(flatCoords), off(flatCoords)+offset, 3, 1, m)) && b.max[1] == fmax(old(b.max[1]), gmax(cells(flatCoords), off(flatCoords)+offset, 3, 1, m))
+//@     invariant b.min[3] == fmin(old(b.min[3]), gmin(cells(flatCoords), off(flatCoords)+offset, 3, 2, m)) && b.max[3] == fmax(old(b.max[3]), gmax(cells(flatCoords), off(flatCoords)+offset, 3, 2, m))
+//@     invariant b.min[2] == old(b.min[2]) && b.max[2] == old(b.max[2])
+
+//@ func Bounds.Extend
+//@   floats real
+//@   lemmas gminRange
+//@   requires Binv(b) && Brange(b) && okLayout(b.layout) && allGeomsOK() && noAlias(b)
+//@   requires tag(g) != 0 && shallowOK(g)
+//@   ensures res == b && Binv(b) && Brange(b) && okLayout(b.layout) && noAlias(b) && allGeomsOK()
+//@   ensures fresh(b.min) || (base(b.min) == old(base(b.min)) && off(b.min) == old(off(b.min)) && cap(b.min) == old(cap(b.min)))
+//@   ensures fresh(b.max) || (base(b.max) == old(base(b.max)) && off(b.max) == old(off(b.max)) && cap(b.max) == old(cap(b.max)))
+//@   ensures loD(b, 0) <= old(loD(b, 0)) && hiD(b, 0) >= old(hiD(b, 0)) && loD(b, 1) <= old(loD(b, 1)) && hiD(b, 1) >= old(hiD(b, 1))
+//@   ensures loD(b, 2) <= old(loD(b, 2)) && hiD(b, 2) >= old(hiD(b, 2)) && loD(b, 3) <= old(loD(b, 3)) && hiD(b, 3) >= old(hiD(b, 3))
+//@   ensures flatValid(g) ==> b.layout == joinLayout(old(b.layout), unbox(g, ptr_geom0).layout)
+//@   ensures flatValid(g) ==> loD(b, 0) == fmin(old(loD(b, 0)), gloD(unbox(g, ptr_geom0), 0)) && hiD(b, 0) == fmax(old(hiD(b, 0)), ghiD(unbox(g, ptr_geom0), 0))
+//@   ensures flatValid(g) ==> loD(b, 1) == fmin(old(loD(b, 1)), gloD(unbox(g, ptr_geom0), 1)) && hiD(b, 1) == fmax(old(hiD(b, 1)), ghiD(unbox(g, ptr_geom0), 1))
+//@   ensures flatValid(g) ==> loD(b, 2) == fmin(old(loD(b, 2)), gloD(unbox(g, ptr_geom0), 2)) && hiD(b, 2) == fmax(old(hiD(b, 2)), ghiD(unbox(g, ptr_geom0), 2))
+//@   ensures flatValid(g) ==> loD(b, 3) == fmin(old(loD(b, 3)), gloD(unbox(g, ptr_geom0), 3)) && hiD(b, 3) == fmax(old(hiD(b, 3)), ghiD(unbox(g, ptr_geom0), 3))
+//@   modifies *b, b.min[0:cap(b.min)], b.max[0:cap(b.max)]
+//@   decreases *
+//@   loop 1:
+//@     invariant Binv(b) && Brange(b) && okLayout(b.layout) && noAlias(b) && allGeomsOK()
+//@     invariant fresh(b.min) || (base(b.min) == old(base(b.min)) && off(b.min) == old(off(b.min)) && cap(b.min) == old(cap(b.min)))
+//@     invariant fresh(b.max) || (base(b.max) == old(base(b.max)) && off(b.max) == old(off(b.max)) && cap(b.max) == old(cap(b.max)))
+//@     invariant loD(b, 0) <= old(loD(b, 0)) && hiD(b, 0) >= old(hiD(b, 0)) && loD(b, 1) <= old(loD(b, 1)) && hiD(b, 1) >= old(hiD(b, 1))
+//@     invariant loD(b, 2) <= old(loD(b, 2)) && hiD(b, 2) >= old(hiD(b, 2)) && loD(b, 3) <= old(loD(b, 3)) && hiD(b, 3) >= old(hiD(b, 3))
+
+//@ func geom0.Bounds
+//@   floats real
+//@   lemmas gminRange
+//@   requires strideOK(g.layout, g.stride) && whole(len(g.flatCoords), g.stride) && finiteCells(g.flatCoords)
+//@   ensures fresh(res) && Binv(res) && res.layout == g.layout
+//@   ensures g.stride > 0 ==> forall j int :: 0 <= j && j < g.stride ==> res.min[j] == gmin(cells(g.flatCoords), off(g.flatCoords), g.stride, j, cnt(len(g.flatCoords), g.stride)) && res.max[j] == gmax(cells(g.flatCoords), off(g.flatCoords), g.stride, j, cnt(len(g.flatCoords), g.stride))
+
+//@ func GeometryCollection.Layout
+//@   floats real
+//@   requires gcOK(g) && allGeomsOK()
+//@   ensures g.layout != 0 ==> res == g.layout
+//@   ensures okLayout(res)
+//@   decreases *
+//@   loop 1:
+//@     invariant okLayout(maxLayout)
+
+//@ func GeometryCollection.Bounds
+//@   floats real
+//@   requires gcOK(g) && allGeomsOK()
+//@   ensures fresh(res) && Binv(res) && Brange(res) && okLayout(res.layout)
+//@   loop 1:
+//@     invariant fresh(b) && Binv(b) && Brange(b) && okLayout(b.layout) && fresh(b.min) && fresh(b.max) && noAlias(b) && allGeomsOK()
